@@ -304,7 +304,7 @@ META = {
                         "NETWORK_ACK-awaiting types are included) and contents, lengths 1/25/144 and 24 with fragmentation off; plus 6 two/three-message histories on a tree with "
                         "5th children (radio state left by earlier messages)",
                "thorough": "all combinations, 13 lengths"},
-    "outside": ["concurrent cross traffic (excluded by the statement)", "schedules other than the cooperative one, timing jitter",
+    "outside": ["concurrent cross traffic (excluded by the statement)", "schedules other than the cooperative one and its hold-back family; timing jitter beyond the symbolic hold-back schedules (the first K occasions a node could run it may be held back for 1/8/40 poll points; K = 4..6 quick, 6..8 thorough)",
                 "packet loss (the statement assumes none; C02/C13 cover loss per hop)", "trees other than the three co-simulated "
                 "ones for the whole-system run (the per-node steps cover all addresses)"],
     "assumptions": ["composition argument: O1 o O2* o O3 along the C04 path over C01 links",
